@@ -57,6 +57,11 @@ CLAIMED = {
    note="Trusted: Lean kernel; Spec/DmaSpec.lean; memory returns data in command order. CSR front-end not modelled.",
    technique="Lean 4 proof (reservation invariant) + cycle-exact co-simulation + Lean stream monitors",
    design="§6 C12"),
+ "C14": dict(
+   text="Cycle-accurate Lean models of the PRBS31/counter Generator, _LiteDRAMBISTGenerator and _LiteDRAMBISTChecker (composed with the DMA engine models), co-simulated against the real cores and their CSR wrappers on native and AXI ports of 8..128 bits under random port timings, cascade stalls, spurious start strobes and resets; theorems for every schedule: the generator hands exactly the run's sequence (seqAddr i, seqData i) to the DMA engine, the checker's errors register equals the number of positions whose returned word differs, which over a faithful memory is 0 without repeated addresses and k for k corrupted positions; address theorems (8-bit ports inside [base,end); wider ports inside the code's mask window; the full range claim is refuted by a Lean witness that is replayed on the real generator: known finding). The specification (Spec/BistSpec) is evaluated on the implementation's port traffic and error counts.",
+   note="Trusted: Lean kernel; Spec/BistSpec.lean; CSR shims; memory returns read data in command order. AsyncFIFO CDC of the wrappers and the Pattern generator/checker are not modelled.",
+   technique="Lean 4 proof (FSM invariants by induction over schedules, memory/count lemmas, refuting witness) + cycle-exact co-simulation + Lean specification evaluated on implementation runs",
+   design="§6 C14"),
  "C18": dict(
    text="Lean models of the DFI injector (combinational multiplexer + phase injectors) and of the rate converter (Serializer/Deserializer on two aligned clocks), co-simulated cycle-exactly against the real DFIInjector and DFIRateConverter; theorems: hardware mode is transparent in both directions and software mode isolates the controller (all values), serializer emits the latched word slot by slot, one slow cycle later; the converter's specification (Spec/RateSpec: command latency and phase order, write/read data windows) is evaluated on the implementation.",
    note="Trusted: Lean kernel; Spec/RateSpec.lean; CSR shims; aligned clocks; vendor serialisers out of scope.",
